@@ -18,7 +18,7 @@ var zzPow255 = new(big.Int).Lsh(big.NewInt(1), 255)
 // ZZ_C12_Expiry: refundExpiredTxs acts on exactly the unbatched transfers whose timeout has passed and refunds
 // each of them exactly (hub origin / other-chain origin / no origin), never a batched one.
 func ZZ_C12_Expiry() {
-	o := keeper.ZZStateOpts{MaxPool: 1, MaxBatches: 1, MaxPerBatch: 1, ConcreteIds: true, Chains: []types.ChainID{"ethereum"}}
+	o := keeper.ZZStateOpts{MaxPool: 2, MaxBatches: 1, MaxPerBatch: 1, ConcreteIds: true, Chains: []types.ChainID{"ethereum"}}
 	if vrt.Thorough() {
 		o = keeper.ZZStateOpts{MaxPool: 2, MaxBatches: 1, MaxPerBatch: 1, ConcreteIds: true, DecChoice: true}
 	}
@@ -27,7 +27,12 @@ func ZZ_C12_Expiry() {
 	env := st.Env()
 	k, ctx, chain := env.K, env.Ctx, st.Chain()
 	pre := keeper.ZZRefundPreOf(st)
-	timeoutMs := vrt.Uint64Below("timeout.ms", 1<<40)
+	// quick tier: four timeouts (sub-second, the test value, the default, one with a millisecond part); creation and
+	// block times stay symbolic, so every position relative to the boundary is covered. Thorough: any timeout.
+	timeoutMs := []uint64{1, 60001, 86400000 - 1, 2500}[vrt.Choose("timeout.choice", 4)]
+	if vrt.Thorough() {
+		timeoutMs = vrt.Uint64Below("timeout.ms", 1<<40)
+	}
 	p := keeper.ZZDefaultParams()
 	p.OutgoingTxTimeout = timeoutMs
 	k.ZZSetParams(ctx, p)
@@ -153,4 +158,48 @@ func ZZ_C09_PowerDiff() {
 		}
 	}
 	vrt.Assert("c09.diff.within-5-percent", new(big.Int).Mul(sum, big.NewInt(20)).Cmp(big.NewInt(4294967295)) <= 0)
+}
+
+// ZZ_C10_CreateBatchTxs: the real begin-block batch creation over a pool with up to two tokens: one batch per token
+// with unbatched transfers, every transfer in the batch of its token, and batch nonces / outgoing sequence numbers
+// handed out consecutively (distinct, counters advanced by the number of batches).
+func ZZ_C10_CreateBatchTxs() {
+	st := keeper.ZZBuildState(keeper.ZZStateOpts{MaxPool: 2, MaxBatches: 0, ConcreteIds: true, Chains: []types.ChainID{"ethereum"}})
+	env := st.Env()
+	k, chain := env.K, st.Chain()
+	ctx := env.Ctx.WithBlockHeight(int64(vrt.Uint64Below("block.height", 1<<40)))
+	seq0 := vrt.Uint64Below("seq0", 1<<56)
+	k.ZZSetOutgoingSequence(ctx, chain, seq0)
+	nonce0 := st.LastNonce()
+	tokens := map[string]bool{}
+	for _, p := range st.Pool() {
+		tokens[p.Token.ExternalTokenId] = true
+	}
+	createBatchTxs(ctx, chain, k)
+	vrt.Reach("c10.begin.returned")
+	bs := keeper.ZZBatchesOf(k, ctx, chain)
+	if ctx.BlockHeight()%2 != 0 {
+		vrt.Assert("c10.begin.only-every-second-block", len(bs) == 0 && len(keeper.ZZPoolOf(k, ctx, chain)) == len(st.Pool()))
+		return
+	}
+	vrt.Assert("c10.begin.one-batch-per-token", len(bs) == len(tokens))
+	vrt.Assert("c10.begin.pool-drained", len(keeper.ZZPoolOf(k, ctx, chain)) == 0)
+	n := uint64(len(bs))
+	vrt.Assert("c10.begin.counters-advance-by-the-number-of-batches", k.ZZLastBatchNonce(ctx, chain) == nonce0+n && k.ZZOutgoingSequence(ctx, chain) == seq0+n)
+	for i, b := range bs {
+		vrt.Assert("c10.begin.nonce-in-range", b.BatchNonce > nonce0 && b.BatchNonce <= nonce0+n)
+		vrt.Assert("c10.begin.sequence-in-range", b.Sequence > seq0 && b.Sequence <= seq0+n)
+		for j := 0; j < i; j++ {
+			vrt.Assert("c10.begin.nonces-distinct", bs[j].BatchNonce != b.BatchNonce)
+			vrt.Assert("c10.begin.sequences-distinct", bs[j].Sequence != b.Sequence)
+		}
+		vrt.Assert("c10.begin.nonempty", len(b.Transactions) >= 1)
+		for _, t := range b.Transactions {
+			vrt.Assert("c10.begin.own-token", t.Token.ExternalTokenId == b.ExternalTokenId)
+		}
+	}
+	for _, p := range st.Pool() {
+		inPool, inBatch := keeper.ZZCount(k, ctx, chain, p.Id)
+		vrt.Assert("c10.begin.every-transfer-batched-once", inPool == 0 && inBatch == 1)
+	}
 }
